@@ -8,7 +8,7 @@ from fractions import Fraction
 from .. import apirun, common
 
 PID = "C10"
-MODULES = ["GroupbyVerif.Props.C10"]
+MODULES = ["GroupbyVerif.Props.C10", "GroupbyVerif.LoopBridge.Ema"]
 RULE = ("seeded random interleavings of <= 3 groups (null keys included), null/mask placements incl. leading nulls, value dtypes f64 f32 i32 i64; "
         "untimed: alpha in {1, 1/2, 1/4, 3/4} exactly (dyadic: float arithmetic exact on small inputs is NOT assumed - comparison is to 1e-12 relative) and "
         "real halflives {0.5, 1, 2.5, 7} vs alpha = 1 - 2^(-1/h); timed: irregular timestamps in s/ms/us/ns units incl. pre-1970, halflife strings; "
